@@ -82,6 +82,7 @@ def explore(ck):
         elif hashes != active_hashes or m['csv'] != spec_models[c.id + 'spec']['csv']:
             ck.disagreement('model delivers a non-active block outside the known class on ' + c.id, 'delivered=%s active=%s' % (hashes, active_hashes), c, in_domain=True)
     # exhaustive: all 256 status bytes through BlockIndexRecord::from + filter
+    if not run.hooks_ok(ck): return
     lines = []
     for st in range(256):
         hdr = gen.rb(r, 80); v = index_value(1, 7, st, 1, 3, 1234, 99, hdr); lines.append((st, '%s %s' % (gen.rb(r, 32).hex(), v.hex())))
